@@ -164,3 +164,40 @@ Example C20_states_example :
   enum_states [ [2]; [2; 6] ]%positive =
   [ [ ([2], false); ([2; 6], false) ]; [ ([2], true); ([2; 6], false) ]; [ ([2], true); ([2; 6], true) ] ]%positive.
 Proof. vm_compute. reflexivity. Qed.
+
+(* ---- shared output names: the flattened graph carries a data edge from EVERY producer (graph/core.py
+        _edges_from_every_producer, model VizProducers.complete_level / complete_forest) ---- *)
+From HG Require Import VizProducers.
+
+(* once the first producer's edge is there (Graph.nx_graph draws that one), every producer of every consumed name has an edge to
+   the consumer *)
+Theorem C20_every_producer_has_an_edge ts es c p s :
+  In c ts -> In p (t_ins c) -> In s (producers_of ts p) ->
+  (forall s0 rest, producers_of ts p = s0 :: rest -> has_pair es s0 (t_name c) = true) ->
+  has_pair (complete_level ts es) s (t_name c) = true.
+Proof. exact (complete_every_producer ts es c p s). Qed.
+Print Assumptions C20_every_producer_has_an_edge.
+
+(* and nothing else is added: a new pair is a producer / consumer name match of that level *)
+Theorem C20_only_matches_added ts es a b :
+  has_pair (complete_level ts es) a b = true ->
+  has_pair es a b = true \/ exists t p, In t ts /\ t_name t = b /\ In p (t_ins t) /\ In a (producers_of ts p).
+Proof. exact (complete_only_matches ts es a b). Qed.
+Print Assumptions C20_only_matches_added.
+
+(* the completion leaves the nested structure alone and is applied at every level *)
+Theorem C20_completion_every_level t :
+  t_name (complete_tree t) = t_name t /\ t_ins (complete_tree t) = t_ins t /\ t_outs (complete_tree t) = t_outs t /\
+  t_ch (complete_tree t) = complete_forest (t_ch t) /\ t_es (complete_tree t) = complete_level (t_ch t) (t_es t).
+Proof.
+  exact (conj (complete_tree_name t) (conj (complete_tree_ins t) (conj (complete_tree_outs t) (conj (complete_tree_ch t) (complete_tree_es t))))).
+Qed.
+Print Assumptions C20_completion_every_level.
+
+(* gate -> pa | pb, both producing w, use(w): nx_graph has pa -> use only; the completed level has pb -> use as well *)
+Example C20_shared_producer_example :
+  let ts := [ TN 1 false [10] [] [] [] false [] []; TN 2 false [10] [11] [] [] false [] [];
+              TN 3 false [10] [11] [] [] false [] []; TN 4 false [11] [12] [] [] false [] [] ]%positive in
+  let es := [ (1, 2, KControl, []); (1, 3, KControl, []); (2, 4, KData, [11]) ]%positive in
+  has_pair es 3 4 = false /\ complete_level ts es = (es ++ [ (3, 4, KData, [11]) ])%positive.
+Proof. vm_compute. split; reflexivity. Qed.
